@@ -38,6 +38,10 @@ type crashOutcome struct {
 // (or only `only`) must leave the store observably equal to the state before the
 // command or to the state after an undisturbed run.
 func runAtomicity(w *World, pre *Snapshot, target Op, only *Inject) crashOutcome {
+	return runAtomicityFor("C04", w, pre, target, only)
+}
+
+func runAtomicityFor(prop string, w *World, pre *Snapshot, target Op, only *Inject) crashOutcome {
 	var oc crashOutcome
 	oc.kind = target.Kind + "/" + fieldSig(target)
 	if w.Predict(pre, target).Decision == MustReject {
@@ -54,7 +58,7 @@ func runAtomicity(w *World, pre *Snapshot, target Op, only *Inject) crashOutcome
 	}
 	postF, err := TakeSnapshot(full.Root)
 	if err != nil {
-		oc.viol = append(oc.viol, Violation{"C04", "store unreadable after an undisturbed run: " + err.Error()})
+		oc.viol = append(oc.viol, Violation{prop, "store unreadable after an undisturbed run: " + err.Error()})
 		return oc
 	}
 	cPre := CanonSnap(pre, pre, w.Root)
@@ -78,7 +82,7 @@ func runAtomicity(w *World, pre *Snapshot, target Op, only *Inject) crashOutcome
 		}
 		snapK, err := TakeSnapshot(k.Root)
 		if err != nil {
-			oc.viol = append(oc.viol, Violation{"C04", fmt.Sprintf("after %s the store cannot be read: %v", inj, err)})
+			oc.viol = append(oc.viol, Violation{prop, fmt.Sprintf("after %s the store cannot be read: %v", inj, err)})
 			oc.failing = &inj
 			RemoveAll(k.Root)
 			return oc
@@ -90,7 +94,7 @@ func runAtomicity(w *World, pre *Snapshot, target Op, only *Inject) crashOutcome
 			oc.nontrivial = append(oc.nontrivial, fmt.Sprintf("%s@%d/%d", oc.kind, completed, len(base.Calls)))
 		}
 		if !out.Killed && len(dPost) > 0 {
-			oc.viol = append(oc.viol, Violation{"C04", fmt.Sprintf("run with %s was not killed, yet differs from the undisturbed run: %s", inj, strings.Join(dPost, "; "))})
+			oc.viol = append(oc.viol, Violation{prop, fmt.Sprintf("run with %s was not killed, yet differs from the undisturbed run: %s", inj, strings.Join(dPost, "; "))})
 			oc.failing = &inj
 		} else if len(dPre) > 0 && len(dPost) > 0 {
 			d := dPre
@@ -98,7 +102,7 @@ func runAtomicity(w *World, pre *Snapshot, target Op, only *Inject) crashOutcome
 			if len(dPost) < len(dPre) {
 				d, which = dPost, "state after"
 			}
-			oc.viol = append(oc.viol, Violation{"C04", fmt.Sprintf("after %s (%s) the store is neither the state before nor the state after the command; nearest is the %s: %s", inj, describeKill(base.Calls, completed), which, clip(strings.Join(d, "; "), 600))})
+			oc.viol = append(oc.viol, Violation{prop, fmt.Sprintf("after %s (%s) the store is neither the state before nor the state after the command; nearest is the %s: %s", inj, describeKill(base.Calls, completed), which, clip(strings.Join(d, "; "), 600))})
 			oc.failing = &inj
 		}
 		RemoveAll(k.Root)
@@ -140,29 +144,29 @@ func replayCrash(t *testing.T, path string, run func(w *World, pre *Snapshot, cc
 	}
 }
 
-func TestC04(t *testing.T) {
+func runCrashTest(t *testing.T, prop, test, rule string, gen func(rt *rapid.T, w *World, pre *Snapshot) Op) {
 	if err := StraceAvailable(); err != nil {
 		t.Skipf("INFRA: %v", err)
 	}
 	if p := os.Getenv("VERIF_REPLAY_IN"); p != "" {
 		replayCrash(t, p, func(w *World, pre *Snapshot, cc CrashCase) crashOutcome {
-			return runAtomicity(w, pre, cc.Target, cc.Inject)
+			return runAtomicityFor(prop, w, pre, cc.Target, cc.Inject)
 		})
 		return
 	}
 	if os.Getenv("VERIF_MINIMIZE_IN") != "" {
 		return
 	}
-	stats := NewStats("C04", "CRASH/atomicity", "for a generated store (short random history) and a generated multi-event command (claim, claim <id>, set with 2-5 fields incl. bodies > 4 KiB, create with state/claim/result, sequence of >= 3, prune of >= 2 items, plan, compact) the command is re-run on a fresh copy once per system call it issues on the store's files, killed by SIGKILL exactly before that call (strace injection); after each kill the observable state must equal the state before the command or the state after an undisturbed run; non-trivial = the kill landed after the command's first and before its last mutating call; distinct = (command shape, kill position)")
+	stats := NewStats(prop, "CRASH/atomicity", rule)
 	defer stats.Flush()
 	deadline := budgetDeadline()
-	replayPath := ReplayOutPath("C04")
+	replayPath := ReplayOutPath(prop)
 	rapid.Check(t, func(rt *rapid.T) {
 		if !deadline.IsZero() && time.Now().After(deadline) {
 			stats.Shortfall = "wall-clock guard reached before all requested instances ran"
 			return
 		}
-		w := NewWorld("C04")
+		w := NewWorld(prop)
 		defer w.Close()
 		nsetup := between(rt, 2, 9, "setup.n")
 		var setup []Op
@@ -187,12 +191,12 @@ func TestC04(t *testing.T) {
 			stats.Abort("setup history hit a violation of another property")
 			return
 		}
-		target := genMultiEventOp(rt, w, pre)
+		target := gen(rt, w, pre)
 		target.N = len(setup)
-		oc := runAtomicity(w, pre, target, nil)
+		oc := runAtomicityFor(prop, w, pre, target, nil)
 		if len(oc.viol) > 0 {
-			WriteReplay(replayPath, CrashCase{Property: "C04", Engine: "CRASH", Test: "TestC04", Setup: setup, Target: target, Inject: oc.failing, Violations: oc.viol, Trace: oc.trace})
-			rt.Fatalf("C04 violated: %v", oc.viol)
+			WriteReplay(replayPath, CrashCase{Property: prop, Engine: "CRASH", Test: test, Setup: setup, Target: target, Inject: oc.failing, Violations: oc.viol, Trace: oc.trace})
+			rt.Fatalf("%s violated: %v", prop, oc.viol)
 		}
 		stats.Eval()
 		if oc.skipped != "" {
@@ -207,6 +211,16 @@ func TestC04(t *testing.T) {
 		}
 		stats.LabelN("kills_between_first_and_last_write", len(oc.nontrivial))
 		stats.Sample(oc.points, map[string]any{"setup": len(setup), "command": strings.Join(w.Build(target).Args, " "), "stdin": clip(w.Build(target).Stdin, 200), "syscalls_on_store": oc.trace, "kill_points_tried": oc.points})
+	})
+}
+
+func TestC04(t *testing.T) {
+	runCrashTest(t, "C04", "TestC04", "for a generated store (short random history) and a generated multi-event command (claim, claim <id>, set with 2-5 fields incl. bodies > 4 KiB, create with state/claim/result, sequence of >= 3, prune of >= 2 items, plan, compact) the command is re-run on a fresh copy once per system call it issues on the store's files, killed by SIGKILL exactly before that call (strace injection); after each kill the observable state must equal the state before the command or the state after an undisturbed run; non-trivial = the kill landed after the command's first and before its last mutating call; distinct = (command shape, kill position)", genMultiEventOp)
+}
+
+func TestC11Crash(t *testing.T) {
+	runCrashTest(t, "C11", "TestC11Crash", "generated stores and generated valid plan documents (2-15 tasks, random DAG); the plan command is re-run on a fresh copy once per system call it issues on the store's files and killed by SIGKILL exactly before that call; after each kill the store must show either nothing of the plan or the whole plan; non-trivial = the kill landed after the command's first and before its last mutating call; distinct = (plan shape, kill position)", func(rt *rapid.T, w *World, pre *Snapshot) Op {
+		return Op{Kind: "plan", Plan: genRichPlan(rt, w)}
 	})
 }
 
